@@ -116,7 +116,7 @@ def closed_symmetric(g):
                 continue
             found = g.line(n)
             if found is not x:
-                bad.append(("lookup/%s" % rt, "line(%r) returns %s instead of %s"
+                bad.append(("lookup/%s" % ("placeholder-of-unknown-type" if rt == "\n" else rt), "line(%r) returns %s instead of %s"
                             % (n, safe_str(found) if found is not None else None, safe_str(x))))
             if rt == "S" and g.segment(n) is not x:
                 bad.append(("lookup-segment", "segment(%r) is not the listed segment" % n))
@@ -171,7 +171,7 @@ def unique_names(g):
     for n, x in seen.items():
         found = g.line(n)
         if found is not x:
-            bad.append(("lookup/%s" % x.record_type,
+            bad.append(("lookup/%s" % ("placeholder-of-unknown-type" if x.record_type == "\n" else x.record_type),
                         "line(%r) returns %s, not the line that carries the identifier (%s)"
                         % (n, safe_str(found) if found is not None else None, safe_str(x))))
     return bad
